@@ -150,7 +150,29 @@ func fullProjection(s *Sys) string {
 			upd = revImage(r)
 		}
 	}
-	return fmt.Sprintf("%v claims=%v owned=%v podTemplates=%v currentTemplate=%s updateTemplate=%s", p, claims, owners, revs, cur, upd)
+	// ... and on the stored revisions: which exist, who controls them, and whether they carry the selector labels
+	// (a revision that was adopted but whose labels were never restored is invisible to the next label query)
+	var stored []string
+	for _, r := range s.C.Revs() {
+		sel := set != nil && set.Spec.Selector != nil && len(set.Spec.Selector.MatchLabels) > 0
+		if sel {
+			for k, v := range set.Spec.Selector.MatchLabels {
+				if r.Labels[k] != v {
+					sel = false
+				}
+			}
+		}
+		_, marked := r.Labels["apps.pingcap.com/upgrade-to-asts"]
+		own := "none"
+		if c := controllerOf(r.OwnerReferences); c != nil {
+			own = "other"
+			if set != nil && c.UID == set.UID {
+				own = "set"
+			}
+		}
+		stored = append(stored, fmt.Sprintf("%s[%s owner=%s selectorLabels=%v marker=%v]", r.Name, revImage(r), own, sel, marked))
+	}
+	return fmt.Sprintf("%v claims=%v owned=%v podTemplates=%v currentTemplate=%s updateTemplate=%s revisions=%v", p, claims, owners, revs, cur, upd, stored)
 }
 
 // safetyMonitors runs the per-reconcile safety rules of C03, C04, C05, C07, C10 and C12 (bounds).
